@@ -780,10 +780,53 @@ mod verif_cex {
             let format = if rng.next(2) == 0 { None } else { Some("numeric") };
             run_case("V1", &parsers, rng.next(LAYOUTS as u64) as usize, &Config { direction, mode: Mode::Trim, format }, &seq, &mut cases);
         }
+        // (e) TWO sibling blocks in one file: each block is judged on its own keys only (nothing is carried
+        //     over from one block to the next), every block gets at most one diagnostic.
+        {
+            let seqs: [&[&str]; 7] = [&[], &["a"], &["a", "b"], &["b", "a"], &["m", "z"], &["z", "m"], &["b", "a", "c"]];
+            let first_bad = |keys: &[&str], asc: bool| -> Option<usize> {
+                (1..keys.len()).find(|i| if asc { keys[i - 1] > keys[*i] } else { keys[i - 1] < keys[*i] })
+            };
+            for (da, asc_a) in [("asc", true), ("desc", false)] {
+                for (db, asc_b) in [("asc", true), ("desc", false)] {
+                    for sa in seqs {
+                        for sb in seqs {
+                            let mut text = format!("# <block keep-sorted=\"{da}\">\n");
+                            for l in sa { text.push_str(l); text.push('\n'); }
+                            text.push_str("# </block>\nx = 1\n");
+                            let b_tag_line = sa.len() + 4;
+                            text.push_str(&format!("# <block keep-sorted=\"{db}\">\n"));
+                            for l in sb { text.push_str(l); text.push('\n'); }
+                            text.push_str("# </block>\n");
+                            let mut expected: Vec<(usize, usize, usize)> = Vec::new();
+                            if let Some(i) = first_bad(sa, asc_a) { expected.push((2 + i, 1, sa[i].len())); }
+                            if let Some(i) = first_bad(sb, asc_b) { expected.push((b_tag_line + 1 + i, 1, sb[i].len())); }
+                            let context = context_of(&parsers, "f.py", &text).unwrap();
+                            let observed = KeepSortedValidator::new().validate(context);
+                            cases += 1;
+                            let mut got: Vec<(usize, usize, usize)> = match &observed {
+                                Ok(m) => m.values().flatten().map(|v| (v.range.start.line, v.range.start.character, v.range.end.character)).collect(),
+                                Err(_) => vec![(0, 0, 0)],
+                            };
+                            got.sort();
+                            if got != expected {
+                                cex_fail(
+                                    "V1",
+                                    "two keep-sorted blocks in one file: each block is judged on its own keys only (at most one diagnostic per block, on its first out-of-order key)",
+                                    json!({"file_name": "f.py", "file_text": text}),
+                                    json!({"violations_line_colstart_colend": expected}),
+                                    outcome_json(&observed),
+                                );
+                            }
+                        }
+                    }
+                }
+            }
+        }
         cex_none(
             "V1",
             cases,
-            "no pattern: all sequences of <=4 lines over {a,b,ab,'  a','b  ','','   ',2,10,9.5,-3,2.0} and <=5 lines over {a,b,'\\ta ','',10,B} x {asc,desc,'',ASC,Desc,bare} x {lexicographic,numeric}; patterns (regex compile is ~1 ms in debug): all sequences of <=2 lines over 12 annotated `k=..` lines x {group,plain} x {asc,desc,ASC} x {lexicographic,numeric}, all 3-line sequences over 9 of them x 6 configurations; 6 comment layouts x (no pattern: sequences of <=3 lines over 6 lines; patterns: <=2 lines); empty-match pattern `(?P<value>z*)` (key = leading run of z, possibly empty; blank lines have no key): all sequences of <=3 lines over {zb,a,zza,'','   ',z,b,zz,' zb'} x {asc,desc} x {lexicographic,numeric}, and <=2 lines in the layouts where content begins on the tag's line / the end tag shares the last line; 1500 random blocks of 6..=15 lines",
+            "two sibling blocks per file: 7 x 7 key sequences x {asc,desc}^2; no pattern: all sequences of <=4 lines over {a,b,ab,'  a','b  ','','   ',2,10,9.5,-3,2.0} and <=5 lines over {a,b,'\\ta ','',10,B} x {asc,desc,'',ASC,Desc,bare} x {lexicographic,numeric}; patterns (regex compile is ~1 ms in debug): all sequences of <=2 lines over 12 annotated `k=..` lines x {group,plain} x {asc,desc,ASC} x {lexicographic,numeric}, all 3-line sequences over 9 of them x 6 configurations; 6 comment layouts x (no pattern: sequences of <=3 lines over 6 lines; patterns: <=2 lines); empty-match pattern `(?P<value>z*)` (key = leading run of z, possibly empty; blank lines have no key): all sequences of <=3 lines over {zb,a,zza,'','   ',z,b,zz,' zb'} x {asc,desc} x {lexicographic,numeric}, and <=2 lines in the layouts where content begins on the tag's line / the end tag shares the last line; 1500 random blocks of 6..=15 lines",
         );
     }
 
